@@ -440,7 +440,21 @@ Definition mon_C05 : monitor := fun L s st s' =>
    end, false).
 
 (* C12 (forward): the quote taken just before equals what the swap reports *)
+(* a reverse quote REFUSED although the documented closed form is defined for the reserves and the rate the pair itself
+   reports (compute_offer_amount of the model is that closed form, abort conditions included) *)
+Definition rev_refusals_justified L s (qs : list (query * option (list N))) : bool :=
+  forallb (fun qa => match qa with
+                     | (QRevSim p k a, None) =>
+                         if mem_addr p (existing_pairs L s) then
+                           let a0 := s_pair_asset L s p 0 in let a1 := s_pair_asset L s p 1 in
+                           if asset_eqb k a0 || asset_eqb k a1 then
+                             let offer := if asset_eqb k a0 then a1 else a0 in
+                             negb (is_ok (compute_offer_amount (s_asset_bal L s offer p) (s_asset_bal L s k p) a (s_pair L s p 10)))
+                           else true
+                         else true
+                     | _ => true end) qs.
 Definition mon_C12 : monitor := fun L s st s' =>
+  if negb (rev_refusals_justified L s (hs_queries st)) then (false, false) else
   if negb (router_quotes_consistent (hs_queries st)) then (false, false) else
   if negb (hs_ok st) then (fail_unchanged st, false) else
   (match hs_op st, hs_quote st, hs_extras st with
